@@ -14,30 +14,59 @@ theorem ordInv_init {c0 : Cfg} (h0 : Started c0) : OrdInv (k0 c0) c0 := by
   unfold OrdInv ordL
   simp [initCfg, Qc_acts, Instr.lines, Instr.pre, Instr.post, readyQ, flyL, inputLines, readLines]
 
+theorem trans_suffix {P : Prog} {c c' : Cfg} (ht : Trans P c c') : ∃ new, c'.tr = new ++ c.tr :=
+  eff_tr (trans_eff ht)
+
 theorem ordInv_trans_step {P : Prog} {c0 c c' : Cfg} (h0 : Started c0) (hU : UserHandlers c0) (hF : NoForge P c0)
-    (hr : Reach P c0 c) (hfin : final (step P c) = c') (ht : Trans P c c')
-    (ih : NoReadyCovered c.tr → NoReadyReentry c.tr → OrdInv (k0 c0) c)
-    (hN1 : NoReadyCovered c'.tr) (hN2 : NoReadyReentry c'.tr) : OrdInv (k0 c0) c' := by
-  obtain ⟨new, hnew⟩ := eff_tr (trans_eff ht)
+    (hr : Reach P c0 c) (hfin : final (step P c) = c') (ht : Trans P c c') (ih : OrdInv (k0 c0) c)
+    (hN1 : NoReadyCovered c'.tr) (hN2 : NoReadyReentry c'.tr ∨ TakeQuiet (k0 c0) c) : OrdInv (k0 c0) c' := by
+  obtain ⟨new, hnew⟩ := trans_suffix ht
   have hN1c : NoReadyCovered c.tr := noReadyCovered_suffix (hnew ▸ hN1)
-  have hN2c : NoReadyReentry c.tr := noReadyReentry_suffix (hnew ▸ hN2)
   rw [← hfin] at hN1 hN2 ⊢
   exact ord_step P c (cleanCode_reach h0 hU hF hr) (readyHandlers_reach h0 hU hr) (depth_reach h0 hU hr)
     (postTop_reach h0 hr) (covered_no_ready h0 hr hN1c) (inputInv_reach h0 hU hF hr) (lastInv_reach h0 hU hF hr)
-    (WF.reach h0 hr) (levOK_reach h0 hr) hN1 hN2 (ih hN1c hN2c)
+    (WF.reach h0 hr) (levOK_reach h0 hr) hN1 hN2 ih
 
 theorem ordInv_reach {P : Prog} {c0 c : Cfg} (h0 : Started c0) (hU : UserHandlers c0) (hF : NoForge P c0)
     (hr : Reach P c0 c) : NoReadyCovered c.tr → NoReadyReentry c.tr → OrdInv (k0 c0) c := by
   induction hr with
   | init => intro _ _; exact ordInv_init h0
   | @step c c' hr hs ih =>
-    exact ordInv_trans_step h0 hU hF hr (by rw [hs]; rfl) (.step hs) ih
+    intro hN1 hN2
+    obtain ⟨new, hnew⟩ := trans_suffix (.step hs)
+    exact ordInv_trans_step h0 hU hF hr (by rw [hs]; rfl) (.step hs)
+      (ih (noReadyCovered_suffix (hnew ▸ hN1)) (noReadyReentry_suffix (hnew ▸ hN2))) hN1 (.inl hN2)
   | @deliver c c' hr hd ih =>
     intro hN1 hN2
-    obtain ⟨new, hnew⟩ := eff_tr (trans_eff (P := P) (.deliver hd))
+    obtain ⟨new, hnew⟩ := trans_suffix (P := P) (.deliver hd)
     exact OrdInv_deliver (ih (noReadyCovered_suffix (hnew ▸ hN1)) (noReadyReentry_suffix (hnew ▸ hN2))) hd
   | @halt c c' o hr hs ih =>
-    exact ordInv_trans_step h0 hU hF hr (by rw [hs]; rfl) (.halt hs) ih
+    intro hN1 hN2
+    obtain ⟨new, hnew⟩ := trans_suffix (.halt hs)
+    exact ordInv_trans_step h0 hU hF hr (by rw [hs]; rfl) (.halt hs)
+      (ih (noReadyCovered_suffix (hnew ▸ hN1)) (noReadyReentry_suffix (hnew ▸ hN2))) hN1 (.inl hN2)
+
+/-- the same, with the static alternative `TakeQuiet` (for all reachable configurations) in place of
+`NoReadyReentry` -/
+theorem ordInv_reach_static {P : Prog} {c0 c : Cfg} (h0 : Started c0) (hU : UserHandlers c0) (hF : NoForge P c0)
+    (hT : ∀ c, Reach P c0 c → TakeQuiet (k0 c0) c) (hr : Reach P c0 c) :
+    NoReadyCovered c.tr → OrdInv (k0 c0) c := by
+  induction hr with
+  | init => intro _; exact ordInv_init h0
+  | @step c c' hr hs ih =>
+    intro hN1
+    obtain ⟨new, hnew⟩ := trans_suffix (.step hs)
+    exact ordInv_trans_step h0 hU hF hr (by rw [hs]; rfl) (.step hs)
+      (ih (noReadyCovered_suffix (hnew ▸ hN1))) hN1 (.inr (hT c hr))
+  | @deliver c c' hr hd ih =>
+    intro hN1
+    obtain ⟨new, hnew⟩ := trans_suffix (P := P) (.deliver hd)
+    exact OrdInv_deliver (ih (noReadyCovered_suffix (hnew ▸ hN1))) hd
+  | @halt c c' o hr hs ih =>
+    intro hN1
+    obtain ⟨new, hnew⟩ := trans_suffix (.halt hs)
+    exact ordInv_trans_step h0 hU hF hr (by rw [hs]; rfl) (.halt hs)
+      (ih (noReadyCovered_suffix (hnew ▸ hN1))) hN1 (.inr (hT c hr))
 
 /-- the order theorem -/
 theorem order_reach {P : Prog} {c0 c : Cfg} (h0 : Started c0) (hU : UserHandlers c0) (hF : NoForge P c0)
